@@ -31,7 +31,7 @@ FieldClasses == [
   dataoff  |-> {"ok", "in_header", "beyond_file"},
   hashlen  |-> {"ok", "zero", "long"},                                    \* declared chunk hash length / checksum bytes
   window   |-> {"ok", "zero", "gt_max"},
-  bits     |-> {"ok", "zero", "gt32"},
+  bits     |-> {"ok", "zero", "b31", "b32", "gt32"},                      \* 31 / 32: the mask still fits, the printed average (1 << bits+1) does not
   minmax   |-> {"ok", "min_gt_max", "max_zero"},
   alg      |-> {"ok", "unknown"},
   ctype    |-> {"ok", "unknown"},
